@@ -94,14 +94,16 @@ def body_config(n1d, coord, user):
     R.set_global('numba', nb)
     nthread = Sym(c.input('nthread', z3.IntSort()))
     c.assume(z3.And(nthread.e >= 1, nthread.e <= 4096))
-    shape = [3, 3, 3]
+    # anisotropic on purpose: the other two axes are longer than the partition axis, so a configuration
+    # derived from the wrong axis length would be accepted here although its stripes are too narrow
+    shape = [2 * n1d + 6, 2 * n1d + 9, 2 * n1d + 12]
     shape[coord] = n1d
-    dens = SArr(tuple(shape), 'f4', fill=0.0, name='dens')
+    dens = SArr(tuple(shape), 'f4', fill=None, name='dens')
     pos = SArr((0, 3), 'f4', name='pos')
     npart = None
     if user:
         npart = Sym(c.input('npartition', z3.IntSort()))
-        c.assume(z3.And(npart.e >= 1, npart.e <= max(n1d, 1) + 1))
+        c.assume(z3.And(npart.e >= 1, npart.e <= 2 * n1d + 13))
     try:
         R.tsc_parallel(pos, dens, 1.0, nthread=nthread, npartition=npart, coord=coord, wrap=True)
     except ValueError:
@@ -112,7 +114,7 @@ def body_config(n1d, coord, user):
     else:
         npv = 1     # serial path: a single stripe
     e = core.lift(npv).as_int()
-    vals = c.values(e, cap=300, what='accepted npartition')
+    vals = c.values(e, cap=400, what='accepted npartition')
     out = []
     for v in vals:
         r, m = c._check([e == v, nthread.e > 1], core.FORK_TIMEOUT_MS)
